@@ -113,6 +113,39 @@ Theorem strict_rejects_only_uncovered :
       end.
 Proof. exact strict_decision_rejects. Qed.
 
+(** the handshake: [MutexCertificateResolver::resolve] and the strict-SNI
+    snapshot of [upgrade_handshake] look the SAME name up — the ClientHello's,
+    lower-cased (rustls), one trailing dot dropped (both read from the source
+    on every run).  Hence the names recorded for the strict-SNI check are
+    those of the certificate that was served, and none are recorded exactly
+    when the default certificate was served. *)
+Theorem handshake_snapshot_is_served_certificate :
+  forall re_match r wire,
+    hello_snapshot re_match r wire =
+    match hello_served re_match r wire with
+    | Some fp => option_map c_names (aget fp (store r))
+    | None => None
+    end.
+Proof. exact hello_snapshot_is_served. Qed.
+
+(** a server name written in absolute form ("a.com.") is served as its
+    relative form is (RFC 1034 3.1) *)
+Theorem absolute_server_name_served_as_relative :
+  forall re_match r n,
+    last (map lower n) 0%N <> DOT ->
+    hello_served re_match r (n ++ [DOT]) = hello_served re_match r n /\
+    hello_snapshot re_match r (n ++ [DOT]) = hello_snapshot re_match r n.
+Proof.
+  intros re_match r n H. unfold hello_served, hello_snapshot. rewrite (conn_name_absolute n H). split; reflexivity.
+Qed.
+
+(** and what is served is the best loaded certificate for the connection's name *)
+Theorem handshake_serves_best :
+  forall re_ok re_match h wire,
+    Forall plain_cop h -> good_key (conn_name wire) -> label_of (conn_name wire) <> [STAR] ->
+    is_best_cert (store (crun re_ok h)) (conn_name wire) (hello_served re_match (crun re_ok h) wire).
+Proof. intros. unfold hello_served. apply resolve_refines_best_lemma; assumption. Qed.
+
 (** ** non-vacuity *)
 Definition n_a_com : bytes := [97; 46; 99; 111; 109]%N.
 Definition n_star_a_com : bytes := [42; 46; 97; 46; 99; 111; 109]%N.
@@ -161,4 +194,24 @@ Example strict_nonvacuous :
   authority_matches_sni [97; 46; 99; 111]%N n_a_com = false /\              (* "a.co" *)
   authority_matches_sni [65; 46; 67; 79; 77; 58; 56]%N n_a_com = true.      (* "A.COM:8" *)
 Proof. repeat split; vm_compute; reflexivity. Qed.
+
+(** "A.COM." and "x.a.com." on the wire are served as a.com and x.a.com are,
+    and the snapshot is the served certificate's names; an uncovered name gets
+    the default certificate and no snapshot *)
+Example handshake_nonvacuous :
+  let c1 := mkcert [1%N] [n_a_com] 100 in
+  let c2 := mkcert [2%N] [n_star_a_com] 200 in
+  let r := crun (fun _ => false) [CAdd (Some c1); CAdd (Some c2)] in
+  let nm := fun _ _ : bytes => false in
+  hello_served nm r [65; 46; 67; 79; 77; 46]%N = Some [1%N] /\                      (* "A.COM." *)
+  hello_snapshot nm r [65; 46; 67; 79; 77; 46]%N = Some [n_a_com] /\
+  hello_served nm r (n_x_a_com ++ [46]%N) = Some [2%N] /\
+  hello_snapshot nm r (n_x_a_com ++ [46]%N) = Some [n_star_a_com] /\
+  hello_served nm r [98; 46; 99; 111; 109; 46]%N = None /\                          (* "b.com." *)
+  hello_snapshot nm r [98; 46; 99; 111; 109; 46]%N = None /\
+  good_key (conn_name (n_x_a_com ++ [46]%N)) /\ label_of (conn_name (n_x_a_com ++ [46]%N)) <> [STAR].
+Proof.
+  cbv zeta. repeat split; try (vm_compute; reflexivity); try (vm_compute; discriminate).
+  all: vm_compute; repeat constructor; discriminate.
+Qed.
 
